@@ -166,6 +166,22 @@ Definition kterm_of (c : case) (h : N) : option construct_res :=
   | k :: _ => Some k
   | [] => None
   end.
+(* handlers whose observed return code is a refusal that excludes any use of the node key / chain client:
+   role, read, verify, allowance, format, context (codes 1..6) *)
+Definition refused_early (c : case) (h : N) : bool :=
+  existsb (fun r => (fst r =? h) && (1 <=? snd r) && (snd r <=? 6)) (o_rets (ob c)).
+Definition may_sign_of (c : case) (hl : list N) : list bytes :=
+  flat_map (fun h => match kterm_of c h with
+                     | Some (KOk d _) | Some (KSignFail d) => [d]
+                     | _ => [] end) hl.
+Definition may_send_of (c : case) (hl : list N) : list (bytes * bytes) :=
+  flat_map (fun h => match kterm_of c h, handler_bid c h with
+                     | Some (KOk d sg), Some b =>
+                         match parse_bigint (b_amt b) with
+                         | Some amt => [(contract c, calldata keccak256 amt {| c_bid := b; c_dig := d; c_sig := sg |})]
+                         | None => []
+                         end
+                     | _, _ => [] end) hl.
 Definition may_sign (c : case) : list bytes :=
   flat_map (fun h => match kterm_of c h with
                      | Some (KOk d _) | Some (KSignFail d) => [d]
@@ -220,9 +236,15 @@ Definition violation (c : case) : option string :=
                        (map fst (o_sends o)) (may_send c))
       then Some (String.append "effect-without-gate:" (first_failure c))
       else
-        (* a handler that reported a refusal must not have written a commitment *)
+        (* a handler that reported a refusal must not have written a commitment, nor signed or submitted one:
+           the signatures / transactions must be attributable to passing handlers that did NOT return an early
+           refusal *)
+        let quiet := filter (fun h => negb (refused_early c h)) (passing c) in
         if existsb (fun w => existsb (fun r => (fst r =? wo_h w) && negb (snd r =? 0) && negb (snd r =? 8)) (o_rets o))
-                   (o_writes o)
+                   (o_writes o) ||
+           negb (covered bytes_eqb (o_signed o) (may_sign_of c quiet)) ||
+           negb (covered (fun x y => bytes_eqb (fst x) (fst y) && bytes_eqb (snd x) (snd y))
+                         (map fst (o_sends o)) (may_send_of c quiet))
         then Some "refusal-with-effect"%string
         else None
   end.
